@@ -67,8 +67,8 @@ func coreValues() []MV {
 			seqOf(p, 0, 97, 98, 99),
 			seqOf(p, 2, 99, 100),
 			seqOf(p, -1, 97, 98),
-			seqOf(p, 0, 97, hole, 99),                    // holes
-			seqOf(p, 1, 98, hole, 100),                   // offset + holes
+			seqOf(p, 0, 97, hole, 99),  // holes
+			seqOf(p, 1, 98, hole, 100), // offset + holes
 			mset(append(seqOf(p, 0, 97).S, seqOf(p, 0, 98).S...)...), // superimposed at 0
 			mset(append(seqOf(p, 0, 97, 98).S, seqOf(p, 1, 99).S...)...),
 		)
@@ -80,8 +80,8 @@ func coreValues() []MV {
 	d := core.MDict
 	u = append(u,
 		d(num(1), num(2)), d(num(1), num(3)), d(num(1), num(2), num(3), num(4)), d(num(3), num(4)),
-		d(num(1), num(2), num(1), num(3)),                                  // multi-valued key
-		d(num(1), num(2), num(1), num(3), num(3), num(4)),                  // multi + ordinary
+		d(num(1), num(2), num(1), num(3)),                 // multi-valued key
+		d(num(1), num(2), num(1), num(3), num(3), num(4)), // multi + ordinary
 		d(core.MStr("a"), num(1)), d(core.MStr("a"), num(1), core.MStr("b"), num(2)),
 		d(core.MStr("a"), num(2)), d(core.MStr("a"), core.MStr("x")),
 		d(mtup("k", num(1)), num(1)), d(mset(num(1)), num(2)),
